@@ -112,6 +112,14 @@ def unwrittenExempt (o : Op) : Bool :=
     (o.st.entry == .view && (o.st.vw ≠ dimx || o.st.vh ≠ dimy))
   | _ => true
 
+/-- "a header that declares a palette ... inconsistent with the data is reported as an error": the file uses a palette index
+    the header does not declare (a property of the input bytes, computed by the decoder model) -/
+def paletteInconsistent (o : Op) : Bool :=
+  o.fmt == .bmp &&
+  match decode o.fmt o.dev o.bytes o.st with
+  | .ub "inconsistent-data-accepted" why => why.startsWith "palette index beyond"
+  | _ => false
+
 /-- the Spec of C11 evaluated on the implementation's observation -/
 def judge (op obs : String) : String :=
   match parseOp op with
@@ -129,10 +137,12 @@ def judge (op obs : String) : String :=
         if rest.getLast? == some "ext=differs" then "fail short-read-used-as-data" ++ diagnosis o
         else
           match o.st.entry with
-          | .info | .scan => "ok"
+          | .info => "ok"
+          | .scan => if paletteInconsistent o then "fail inconsistent-palette-accepted" ++ diagnosis o else "ok"
           | _ =>
             -- ok w h hashA hashB ext=..
             if rest.length ≥ 4 && rest.getD 2 "" ≠ rest.getD 3 "" && !unwrittenExempt o then "fail unwritten-pixels-returned" ++ diagnosis o
+            else if paletteInconsistent o then "fail inconsistent-palette-accepted" ++ diagnosis o
             else "ok"
       else "fail unknown-observation"
 
